@@ -40,6 +40,7 @@ def Get0(n): return {'k': 'get0', 'n': n}
 def Get1(n): return {'k': 'get1', 'n': n}
 def HasKey(n): return {'k': 'haskey', 'n': n}
 def Render(n): return {'k': 'render', 'n': n}
+def MkNs(n, a, u=False): return {'k': 'mkns', 'n': n, 'a': a, 'u': bool(u)}
 def N(n): return {'k': 'name', 'n': n}
 def C(n): return {'k': 'call', 'n': n}
 def X(n): return {'k': 'val', 'n': n}
@@ -178,6 +179,8 @@ def _ref(r, tagattr=True):
         return 'expr="_.has_key(\'%s\')"' % r['n']
     if k == 'render':
         return 'expr="_.render(%s)"' % r['n']
+    if k == 'mkns':
+        return ('expr="_(%s=%s)"' if r.get('u') else 'expr="_.namespace(%s=%s)"') % (r['a'], r['n'])
     raise ValueError(k)
 
 
